@@ -3,7 +3,10 @@
 (* (or one helper function) per step, checks the laws of the reference and "Alg refines Ref outside the named    *)
 (* deviations" on every complete program, and prints the programs selected for the replay on the real code.      *)
 EXTENDS Resolver, Json, IOUtils, SequencesExt, FiniteSetsExt
-CONSTANTS MaxClasses,   \* class programs with 1..MaxClasses classes (every class an ancestor of the last one)
+CONSTANTS MinClasses,
+          MaxClasses,   \* class programs with MinClasses..MaxClasses classes (every class an ancestor of the last one)
+          MroOnly,      \* TRUE: only the forwarding kinds that walk the MRO (super(), super(B, self)); no helper, method, new
+          AscBases,     \* TRUE: two bases are only listed in the order of their definition, class C3(C1, C2)
           MaxOwn,       \* named parameters per def
           MaxHard,      \* hard-coded keyword arguments per forwarding call
           MaxPop,       \* kwargs.pop/get calls per def
@@ -46,18 +49,20 @@ ChainMenu(i) == <<
   << Sig(i + 1, {1}, TRUE, Fw("next", 0, {}, {3}, "pop", << >>)),                                      \* f(a, **kw): pop c -> g
      Sig(i + 2, {}, TRUE, Fw("next", 0, {2}, {}, "pop", << >>)),                                       \* g(**kw) -> h(b=.., **kw)
      Sig(i + 3, {2, 3, 4}, FALSE, NoFwd) >>,                                                           \* h(b, c, d)
-  << Sig(i + 1, {}, TRUE, Fw("ignore", 0, {}, {4}, "get", << >>)) >>                                   \* f(**kw): kw.get("d")
+  << Sig(i + 1, {}, TRUE, Fw("ignore", 0, {}, {4}, "get", << >>)) >>,                                  \* f(**kw): kw.get("d")
+  << Sig(i + 1, {3}, TRUE, Fw("new", IF i > 1 THEN i - 1 ELSE 1, {}, {}, "pop", << >>)) >>             \* f(c, **kw): return C<i-1>(**kw)
 >>
-ChainWeight == <<1, 1, 2, 2, 3, 1>>
+ChainWeight == <<1, 1, 2, 2, 3, 1, 1>>
+NewChain == 7      \* only offered to classes that have an earlier class to construct
 
 (* ---- class descriptors: [kind, own, hard, q, qop, b, ch, mhas, mown]                                             *)
-Kinds == <<"noinit", "named", "ignore", "super0", "superB", "func", "meth">>
+Kinds == <<"noinit", "named", "ignore", "super0", "superB", "func", "meth", "new">>
 KindIx(k) == PosIn(Kinds, k)
 Desc(kind, own, hard, q, qop, b, ch, mhas, mown) ==
   [kind |-> kind, own |-> own, hard |-> hard, q |-> q, qop |-> qop, b |-> b, ch |-> ch, mhas |-> mhas, mown |-> mown]
 Weight(d) == Cardinality(d.own) + Cardinality(d.hard) + Cardinality(d.q) + (IF d.ch > 0 THEN ChainWeight[d.ch] ELSE 0)
              + (IF d.mhas THEN 1 + Cardinality(d.mown) ELSE 0)
-Code(d) == Mask(d.own) + 16 * Mask(d.hard) + 256 * Mask(d.q) + 4096 * KindIx(d.kind) + 32768 * d.b + 262144 * d.ch
+Code(d) == Mask(d.own) + 16 * Mask(d.hard) + 256 * Mask(d.q) + 2048 * KindIx(d.kind) + 32768 * d.b + 262144 * d.ch
            + (IF d.qop = "get" THEN 4194304 ELSE 0) + 8388608 * (IF d.mhas THEN 16 + Mask(d.mown) ELSE 0)
 
 Build(i, bases, d) ==
@@ -79,8 +84,8 @@ AllDescs ==
               own \in SmallSets(MaxOwn), q \in SmallSets(MaxPop), qop \in {"pop", "get"}}
       \cup {Desc(k, own, hard, q, "pop", 0, 0, FALSE, {}) :
               k \in {"super0", "meth"}, own \in SmallSets(MaxOwn), hard \in SmallSets(MaxHard), q \in one}
-      \cup {Desc("superB", own, hard, q, "pop", b, 0, FALSE, {}) :
-              own \in SmallSets(MaxOwn), hard \in SmallSets(MaxHard), q \in one, b \in 1..MaxClasses}
+      \cup {Desc(k, own, hard, q, "pop", b, 0, FALSE, {}) :
+              k \in {"superB", "new"}, own \in SmallSets(MaxOwn), hard \in SmallSets(MaxHard), q \in one, b \in 1..MaxClasses}
       \cup {Desc("func", own, hard, q, "pop", 0, ch, FALSE, {}) :
               own \in SmallSets(MaxOwn), hard \in SmallSets(MaxHard), q \in one, ch \in DOMAIN ChainWeight}
       sane == {d \in core : ~(d.qop = "get" /\ d.q = {})}
@@ -92,16 +97,19 @@ DescsByWeight == [wt \in 0..MaxWeight |-> {d \in AllDescs : Weight(d) = wt}]
 Descs(i, anc, methAbove, left, shp) ==
   {d \in UNION {DescsByWeight[wt] : wt \in 0..left} :
       /\ d.kind = "superB" => d.b \in anc
+      /\ d.kind = "new" => d.b < i
+      /\ MroOnly => d.kind \notin {"func", "meth", "new"}
+      /\ d.ch = NewChain => i > 1
       /\ d.mhas => (d.kind = "meth" \/ methAbove)
       /\ d.q # {} => Len(shp) <= PopClasses}
 
 (* ---- shapes: base lists such that every class statement is legal and every class is an ancestor of the last one  *)
 BaseSeqs(i) == {<< >>} \cup {<<x>> : x \in 1..(i - 1)} \cup {<<x, y>> : x \in 1..(i - 1), y \in (1..(i - 1))}
 RECURSIVE ShapesOfLen(_)
-ShapesOfLen(n) == IF n = 0 THEN {<< >>} ELSE {Append(s, b) : s \in ShapesOfLen(n - 1), b \in {x \in BaseSeqs(n) : Len(x) < 2 \/ x[1] # x[2]}}
+ShapesOfLen(n) == IF n = 0 THEN {<< >>} ELSE {Append(s, b) : s \in ShapesOfLen(n - 1), b \in {x \in BaseSeqs(n) : Len(x) < 2 \/ (x[1] # x[2] /\ (AscBases => x[1] < x[2]))}}
 Sk(s) == [classes |-> [j \in DOMAIN s |-> [bases |-> s[j]]]]
 GoodShape(s) == (\A j \in DOMAIN s : MroOK(Sk(s), j)) /\ SetOf(Mro(Sk(s), Len(s))) = DOMAIN s
-Shapes == UNION {{s \in ShapesOfLen(n) : GoodShape(s)} : n \in 1..MaxClasses}
+Shapes == UNION {{s \in ShapesOfLen(n) : GoodShape(s)} : n \in MinClasses..MaxClasses}
 
 (* ---- functions of a chain that is the component itself                                                           *)
 FnDescs(j) ==
@@ -133,7 +141,7 @@ TopComp == [k |-> "cls", c |-> Len(cls), chain |-> << >>]
 TopCallable == IF Len(cls) = 0 THEN TRUE ELSE Callable(RunTable(P, TopComp, Universe(P, TopComp)))
 
 Init == /\ cls = << >> /\ h = 0 /\ w = 0 /\ fn = << >>
-        /\ shape \in Shapes \cup {<< >>}
+        /\ shape \in Shapes \cup (IF MinClasses = 1 THEN {<< >>} ELSE {})      \* << >>: a function chain is the component
 
 AddClass ==
   /\ IsClassProg /\ Len(cls) < Len(shape) /\ TopCallable
@@ -162,8 +170,11 @@ Spec == Init /\ [][Next]_vars
 Say(clause) == PrintT(ToJson([fail |-> clause, prog |-> P, comp |-> Comp, h |-> h])) /\ KeepGoing
 Selected == (IF IsClassProg THEN Len(cls) <= EmitAllUpTo ELSE Len(fn) <= 1) \/ (h + Seed) % Sel = 0
 
+\* class programs in which some __init__ can never run behave like a smaller program of the instance: skipped
+Relevant == IsClassProg => AllMatter(P, Len(cls))
+
 Inv ==
-  Complete =>
+  (Complete /\ Relevant) =>
   LET U    == Universe(P, Comp)
       T    == RunTable(P, Comp, U)
       call == Callable(T)
